@@ -1,8 +1,9 @@
 CONFIG = {
     "id": "C17",
-    "coq_targets": ["Props/C17.v", "Model/HealCheck.v", "Model/HealTerms.v"],
+    "coq_targets": ["Gen/FormulasInfo.v", "Gen/FormulasAttr.v", "Gen/FormulasHeal.v", "Proofs/FormulasInfoProofs.v", "Proofs/FormulasAttrCoreProofs.v", "Proofs/FormulasHealProofs.v",
+                    "Props/C17.v", "Model/HealCheck.v", "Model/HealTerms.v"],
     "prop_files": ["Props/C17.v"],
-    "gen": [],
+    "gen": ["FormulasInfo", "FormulasAttr", "FormulasHeal"],
     "components": [{
         "name": "heal",
         # HealTerms last: it gives the case files the constructors at the binary64 instance
@@ -21,6 +22,27 @@ CONFIG = {
             "at the overheal boundary (missing HP, one ulp above / below) read from the real attribute service; all randomness "
             "from one splitmix64 state; a case is non-trivial when distinct as an input term",
     "trusted": [
+        "TRANSLATED from the Go source on every run and proved equal to the model for every NumOps instance and "
+        "every argument (Gen/FormulasHeal.v, Gen/FormulasInfo.v, Gen/FormulasAttr.v; Proofs/FormulasHealProofs.v; "
+        "theorem C17_model_formulas_are_the_source): heal.go — the missing-HP term, the per-key switch (which stat "
+        "each HealFormula key multiplies; the summation loop is checked to have the sorted-keys shape and mapped "
+        "to the model's fold), the scaling by healer's HealBoost and target's HealTaken, the overflow split; the "
+        "stats getters and PropMap.Modify (stats.go, map.go); ModifyHPByAmount's new ratio and clamp; the "
+        "HealFormula key values",
+        "still HAND-WRITTEN (correspondence only): the loop over targets, the HealStart / HealEnd emissions and "
+        "that the computation reads the event after the listeners ran, the dead-source and empty-target guards, "
+        "emitHPChangeEvents",
+        "translator (harness/cmd/go2coq formulas.go, formulas_specs.go): trusted are the Go front end "
+        "(go/packages, go/types, go/constant), the fixed whitelist and accessor tables (which Go field / method is "
+        "which model accessor), the statement translation listed at the top of formulas.go, and that lit N n d "
+        "(the correctly rounded quotient of two integers below 2^53) is the binary64 the Go compiler stores for "
+        "the literal n/d; the translator fails closed (unknown construct, added or missing assignment, changed "
+        "signature: go2coq exits 1 and the check reports a broken translator obligation)",
+        "for functions that mix effects and arithmetic only the whitelisted statements are translated (the "
+        "statements of one block that assign the named variables, their number fixed; every other assignment to "
+        "those variables or to the inputs must be whitelisted verbatim): the ORDER of effects around the "
+        "arithmetic (event emissions, service calls, which unit receives the energy) stays hand-written and is "
+        "tied by correspondence only",
         "the Go map of formula terms is traversed in the model in ascending key order: the generator keeps at most two "
         "float addends after the initial value (order independent in binary64), or, in the 'dyadic' third of the cases, up to "
         "five terms whose partial sums are all exact; over the reals the sum is proved order independent (heal_base_perm)",
@@ -36,13 +58,16 @@ CONFIG = {
         "emit further heals from inside the listener)",
     ],
     "manifest": {
-        "level_text": "Kernel-checked theorems over an executable Gallina model of Manager.Heal and the attribute service's "
+        "level_text": "Translator tie (way 1): the heal amount of heal.go (per-key switch, boosts, missing-HP term, overflow split), the stats it reads and the HP update are regenerated from the Go source on every run (go2coq FormulasHeal / FormulasInfo / FormulasAttr) and proved EQUAL to the model definitions for all inputs; "
+                      "Kernel-checked theorems over an executable Gallina model of Manager.Heal and the attribute service's "
                       "HP update (structure and dead-source clause at every arithmetic instance, no-overheal at the binary64 "
                       "level for all histories, amount/overflow algebra at the real instance), tied to the Go code by exact "
                       "bit-for-bit trace correspondence and an independent monitor on generated histories.",
-        "level_note": "Coq kernel; hand-written model Model/CombatCore.v + Model/Heal.v; correspondence harness against the "
+        "level_note": "go2coq Formulas* translator + kernel-checked equalities generated = model; "
+                      "Coq kernel; hand-written model Model/CombatCore.v + Model/Heal.v; correspondence harness against the "
                       "real combat manager, attribute service and event system; reals vs binary64 gap named in trusted.",
-        "technique": "Coq proof (induction over op lists; lra/nra over the reals; case analysis on binary64 comparisons) + "
+        "technique": "source-to-Coq translation of the formulas with equality proofs + "
+                     "Coq proof (induction over op lists; lra/nra over the reals; case analysis on binary64 comparisons) + "
                      "model/implementation correspondence + trace monitor",
         "design_ref": "DESIGN.md section 7, C17",
     },
